@@ -130,7 +130,8 @@ class DDPProgram(Program):
     def setup(self) -> None:
         from distributed_shampoo.shampoo_types import DDPShampooConfig
 
-        self.params = [p.clone().requires_grad_(True) for p in self.full]
+        fz = set(self.trace.get("frozen", []))
+        self.params = [p.clone().requires_grad_(i not in fz) for i, p in enumerate(self.full)]
         self.opt = spec.build_optimizer(self.trace, self.params, distributed_config=DDPShampooConfig(**self.comm_kwargs()))
 
     def local_grad(self, pi: int, g: list) -> torch.Tensor:
@@ -156,7 +157,7 @@ class FlatShardProgram(Program):
         self.params = []
         meta = {}
         for pi, (full, (s, e)) in enumerate(zip(self.full, self.ranges)):
-            local = torch.nn.Parameter(full.reshape(-1)[s:e].clone())
+            local = torch.nn.Parameter(full.reshape(-1)[s:e].clone(), requires_grad=pi not in set(self.trace.get("frozen", [])))
             self.params.append(local)
             meta[local] = FSDPParameterMetadata(
                 fqn=f"p{pi}.weight",
@@ -200,7 +201,7 @@ class DTensorShardProgram(Program):
         for full in self.full:
             local = dim0_chunk(full, S, self.shard_rank)
             dt = DTensor.from_local(local, self.mesh, self.placements, run_check=False, shape=full.shape, stride=full.stride())
-            self.params.append(torch.nn.Parameter(dt))
+            self.params.append(torch.nn.Parameter(dt, requires_grad=len(self.params) not in set(self.trace.get("frozen", []))))
         dc = HybridShardShampooConfig(device_mesh=self.mesh, **self.comm_kwargs()) if hybrid else FullyShardShampooConfig()
         self.opt = spec.build_optimizer(self.trace, self.params, distributed_config=dc)
 
